@@ -398,6 +398,23 @@ theorem power_iteration_sum_one (outs : List Outcomes) (pcs : List PerClass) (hn
   have := iterate_facts outs pcs.length hn eps fuel (startVec pcs) hs.1
   rw [this.2.1, hs.2.1]
 
+/-- The strategies returned by `GetStrategies` are all but the last entry of the iterated
+vector, and that vector sums to one (`power_iteration_sum_one`): the returned probabilities sum
+to `1 - p(largest)`.  So "the returned probabilities sum to more than one" is exactly "the entry
+of the largest size class is negative" — one phenomenon, not two (the monitor judges both alike). -/
+theorem returned_sum_is_one_minus_largest (l : List Rat) (x : Rat) (h : sumRat (l ++ [x]) = 1) :
+    sumRat ((l ++ [x]).take ((l ++ [x]).length - 1)) = 1 - x ∧
+    (sumRat ((l ++ [x]).take ((l ++ [x]).length - 1)) ≤ 1 ↔ 0 ≤ x) := by
+  have ht : (l ++ [x]).take ((l ++ [x]).length - 1) = l := by simp
+  rw [ht]
+  rw [sumRat_append] at h
+  simp only [sumRat] at h
+  constructor
+  · grind
+  · constructor <;> intro _ <;> grind
+
+example : sumRat (([1 / 4, 1 / 4] : List Rat) ++ [1 / 2]) = 1 := by decide +kernel
+
 /-- **restored_start_in_open_interval.**  For EVERY value of `initial_page_rank_probability`
 that can be read back from the Initial Size Class Cache — NaN, +Inf, -Inf, negative, zero,
 denormal, one, larger than one (non-finite values are explicit constructors of `StoredProb`,
